@@ -7,8 +7,10 @@
 //   timers   : activation k happens at now >= created + k*interval (never early), in non-decreasing due time within one dispatch round, none due is left
 //              when the loop blocks, the poll timeout never reaches beyond the next due time; EINTR and oversleeping are injected
 //   removal  : every callback object carries an `alive` flag (tombstones are kept to the end of the scenario): any callback after remove() returned fails
-//   readiness: when the loop is about to block, an independent poll() on every registered fd must agree that nothing is pending for an
-//              unsuspended client / client with backlog / listener / establisher (timing-free witness of a lost registration or event)
+//   readiness: when the loop is about to block (epoll_wait(0) == 0), an independent poll() is made on the fd of every unsuspended client / client with
+//              backlog / listener / pending establisher. Ready per poll() AND the needed readiness not requested from the poll set (epoll_ctl log of the
+//              shim) = lost registration -> violation (no timing involved). Ready per poll() with the registration in place = kernel wake-up still in
+//              flight (loopback softirq): re-polled with real-time naps, inconclusive after 10 s, never a violation
 //   closing  : failed read/write (recv/send log) => onClosed before the loop blocks
 //   interrupt: run() returns iff interrupt() was requested since the last return; after interrupt() the very next poll must wake
 // Threaded scenarios (mode threads, real time, plain and tsan builds): 1..3 threads call interrupt() while run() polls for real.
@@ -18,6 +20,7 @@
 #include <nstd/Time.hpp>
 #include <pthread.h>
 #include <sched.h>
+#include <sys/stat.h>
 
 using namespace vh;
 namespace ns = netshim;
@@ -595,10 +598,24 @@ static void hWaitLeave(int epfd, int n, struct epoll_event* ev) {
 }
 
 // a registered fd is ready according to an independent poll() although the loop's epoll_wait(0) just reported nothing
-static int strike(const char* key, const char* fmt, int id, int re) {
-  if (g_strikeSeq == g_cbSeq && g_strikes >= 2) fail(key, fmt, id, re);
-  if (g_strikeSeq != g_cbSeq) { g_strikeSeq = g_cbSeq; g_strikes = 0; }
+// An independent poll() reports `re` on a registered fd although the loop's epoll_wait(0) just returned nothing.
+//  * the library has NOT requested the needed readiness (epoll_ctl log): lost registration -> violation, no timing involved
+//  * the registration is in place: the wake-up is still in flight inside the kernel (loopback softirq on another, possibly descheduled, vCPU: the data is
+//    already visible to poll() but the epoll callback has not run yet) -> ask again after a short real-time nap; only if this persists for 10 s the run is
+//    declared inconclusive (never a violation)
+static int64_t g_strikeT0 = 0;
+static int strike(const char* key, const char* fmt, int id, int re, int fd, unsigned needMask) {
+  if (fd < 0 || fd >= 8000) harnessBug("fd %d outside the epoll_ctl observation table", fd);
+  unsigned mask = ns::epollMask(fd);
+  if (mask == 0xffffffffu || !(mask & needMask)) {
+    hist.addf("  epoll registration of fd %d: %s mask 0x%x, needed 0x%x\n", fd, mask == 0xffffffffu ? "ABSENT" : "present", mask, needMask);
+    fail(key, fmt, id, re);
+  }
+  if (g_strikeSeq != g_cbSeq) { g_strikeSeq = g_cbSeq; g_strikes = 0; g_strikeT0 = ns::realMonotonicMs(); }
   ++g_strikes; cnt("idle_repolls");
+  if (g_strikes > 3) su::sleepUs(g_strikes < 50 ? 100 : 2000);
+  if (ns::realMonotonicMs() - g_strikeT0 > 10000)
+    harnessBug("poll() reports 0x%x on fd %d (object %d, %s) which is registered in the epoll set with mask 0x%x, yet epoll_wait(0) kept returning nothing for 10 s", re, fd, id, key, mask);
   return 1;
 }
 static int idleLiveness() {
@@ -611,12 +628,12 @@ static int idleLiveness() {
     if (!m->backlogDropped && (u64)m->c->getSendBufferSize() != m->backlog()) fail("Server.Client.getSendBufferSize/idle/value", "client %d: getSendBufferSize %llu, model %llu", m->id, (unsigned long long)m->c->getSendBufferSize(), (unsigned long long)m->backlog());
     if (!m->suspended) {
       int re = su::pollNow(m->fd, POLLIN | POLLRDHUP | POLLHUP);
-      if (re) return strike("Server.Client.onRead/readable-not-dispatched", "client %d is registered, not suspended, poll() reports 0x%x, but the loop's poll set reports nothing and is about to block", m->id, re);
+      if (re) return strike("Server.Client.onRead/readable-not-dispatched", "client %d is registered, not suspended, poll() reports 0x%x, but read readiness is not requested from the poll set and the loop is about to block", m->id, re, m->fd, EPOLLIN);
       if (m->origin != 0 && (m->inSent > m->inRead || m->peerClosed)) { if (!su::waitReady(m->fd, POLLIN | POLLRDHUP | POLLHUP)) harnessBug("loopback data never arrived"); cnt("tcp_inflight_waits"); return 1; }
     }
     if (!m->backlogDropped && m->backlog() > 0) {
       int re = su::pollNow(m->fd, POLLOUT);
-      if (re) return strike("Server.Client.write/backlog-stalled", "client %d has queued bytes and poll() reports its socket writable (0x%x), but the loop's poll set reports nothing and is about to block", m->id, re);
+      if (re) return strike("Server.Client.write/backlog-stalled", "client %d has queued bytes and poll() reports its socket writable (0x%x), but the loop's poll set reports nothing and is about to block", m->id, re, m->fd, EPOLLOUT);
       drainPeer(m); cnt("idle_peer_drains"); return 1;
     }
   }
@@ -624,14 +641,14 @@ static int idleLiveness() {
     ListenerM* m = g_ls[i]; if (!m->alive) continue;
     cnt("independent_poll_checks");
     int re = su::pollNow(m->fd, POLLIN);
-    if (re) return strike("Server.Listener.onAccepted/acceptable-not-dispatched", "listener %d has a connection to accept (poll() 0x%x) but the loop's poll set reports nothing and is about to block", m->id, re);
+    if (re) return strike("Server.Listener.onAccepted/acceptable-not-dispatched", "listener %d has a connection to accept (poll() 0x%x) but the loop's poll set reports nothing and is about to block", m->id, re, m->fd, EPOLLIN);
     if (m->pendFd.n) { if (!su::waitReady(m->fd, POLLIN)) harnessBug("loopback connection never arrived at the listener"); cnt("tcp_inflight_waits"); return 1; }
   }
   for (size_t i = 0; i < g_es.n; ++i) {
     EstabM* m = g_es[i]; if (!m->alive || m->done) continue;
     cnt("independent_poll_checks");
     int re = su::pollNow(m->fd, POLLOUT | POLLERR | POLLHUP);
-    if (re) return strike("Server.Establisher/connect-result-not-dispatched", "establisher %d: connect finished (poll() 0x%x) but the loop's poll set reports nothing and is about to block", m->id, re);
+    if (re) return strike("Server.Establisher/connect-result-not-dispatched", "establisher %d: connect finished (poll() 0x%x) but the loop's poll set reports nothing and is about to block", m->id, re, m->fd, EPOLLOUT);
     if (!su::waitReady(m->fd, POLLOUT | POLLERR | POLLHUP)) harnessBug("loopback connect never finished");
     cnt("tcp_inflight_waits"); return 1;
   }
@@ -727,7 +744,8 @@ static void endWorld(Rng& r) {
 static void runLoopUntilFinal() {
   int guard = 0;
   while (!g_final) {
-    if (++guard > 2000) harnessBug("too many run() returns");
+    if (++guard > 100000) harnessBug("too many run() returns");
+    if (guard == 1000) { g_w[A_INTERRUPT] = 0; g_stepsLeft = 0; cnt("scenarios_cut_by_return_cap"); }   // interrupt-happy scenario: wind it down
     g_inRun = true; setctx("Server.run"); hist.addf("t=%lld run()\n", (long long)ns::vnow());
     g_srv->run();
     g_inRun = false; setctx("driver"); cnt("run_returns");
@@ -883,7 +901,24 @@ static void threadCase(long idx) {
   endCase(fp, t_returns >= 2);
 }
 
+// Observation (not a verdict of C13/C14, see SPEC assumptions): a suspended client without backlog is registered with an empty event mask, but epoll always
+// reports EPOLLHUP; when its peer closes, the loop wakes up for an event with no flags over and over. Prints the number of poll rounds during 30 ms.
+static int observeHupSpin() {
+  struct Cb : public Server::Client::ICallback { void onRead() {} void onWrite() {} void onClosed() {} } cb;
+  struct Tm : public Server::Timer::ICallback { Server* s; void onActivated() { s->interrupt(); } } tm;
+  ns::reset(); ns::mode = ns::REAL; g_virtual = false;
+  Server srv; tm.s = &srv; Socket peer;
+  Server::Client* c = srv.pair(cb, peer); if (!c) harnessBug("pair failed");
+  c->suspend(); peer.close();
+  Server::Timer* t = srv.time(30, tm);
+  long w0 = ns::nWait(); srv.run(); long rounds = ns::nWait() - w0;
+  srv.remove(*t); srv.remove(*c);
+  printf("@STAT observed_poll_rounds_in_30ms_with_suspended_client_whose_peer_closed %ld\n", rounds);
+  return 0;
+}
+
 static int probe(const char* key) {
+  if (!strcmp(key, "observation:suspended-client-hup-spin")) return observeHupSpin();
   harnessBug("unknown probe %s", key);
   return 2;
 }
